@@ -622,6 +622,9 @@ def run(prop, tier, replay=None):
         model_check(rep, prop, "MC_ConfigGen.tla", "MC_ConfigDefs.cfg", None, "definition list: every reachable object once, children first")
         io_conformance(rep, prop, nq, sd)
         echo_runs(rep, 20 if tier == "quick" else 200, sd)
+        from . import checks_restart
+
+        checks_restart.run_rerun(rep, "C12")      # the second attempt of a job observes the second configuration
     elif prop == "C13":
         model_check(rep, prop, "MC_ConfigGen.tla", "MC_ConfigDefs.cfg", None, "instantiated set = reachable without task links")
         io_conformance(rep, prop, nq, sd)
